@@ -89,6 +89,26 @@ PANICKY_NAMES = {'unwrap', 'expect', 'copy_from_slice', 'split_at', 'index', 'in
                  'first_chunk', 'split_first_chunk', 'last_chunk', 'div_ceil', 'pow', 'abs', 'neg', 'rem_euclid', 'div_euclid'}
 
 
+# families of core functions that cannot panic themselves (closures they run are bodies of this crate and are analysed
+# as part of the call-graph closure); deliberately absent: Iterator::sum/product (overflow), step_by/chunks (zero), indexing
+import re as _re
+SAFE_FAMILIES = [_re.compile(x) for x in (
+    r'^core::iter::Iterator::(rev|zip|map|fold|for_each|enumerate|all|any|filter|take|skip|chain|cloned|copied|count|last|next|nth|position|'
+    r'find|min|max|by_ref|peekable|flat_map|flatten|try_fold|try_for_each|collect|eq|ne|cmp|size_hint|filter_map|find_map|take_while|'
+    r'skip_while|inspect|fuse|min_by_key|max_by_key|rposition|unzip|scan|partial_cmp|lt|le|gt|ge)$',
+    r'^core::iter::(DoubleEndedIterator::(next_back|rfold|rfind|nth_back)|IntoIterator::into_iter|ExactSizeIterator::len)$',
+    r'^core::ops::(BitXor::bitxor|BitXorAssign::bitxor_assign|BitAndAssign::bitand_assign|BitOrAssign::bitor_assign)$',
+    r'^core::result::Result::(err|ok|is_err_and|map_or|map_or_else|or|or_else|unwrap_or_else|unwrap_or_default|as_ref|as_mut|iter|copied|cloned|and|inspect|inspect_err)$',
+    r'^core::option::Option::(map_or|map_or_else|or|or_else|xor|filter|zip|take|replace|as_ref|as_mut|copied|cloned|unwrap_or_else|and|iter|inspect|is_some_and|is_none_or|ok_or|map|then)$',
+    r'^core::bool::<impl bool>::(then_some|then)$',
+    r'^core::slice::<impl \[T\]>::(as_ptr|as_mut_ptr|get_mut|first_mut|last_mut|contains|starts_with|ends_with|fill|reverse|iter|is_empty|len|split_first_mut|split_last_mut|as_chunks|as_chunks_mut|as_rchunks)$',
+    r'^core::num::<impl [ui](8|16|32|64|128|size)>::(wrapping_\w+|saturating_\w+|checked_\w+|overflowing_\w+|to_[bln]e_bytes|from_[bln]e_bytes|'
+    r'leading_zeros|trailing_zeros|count_ones|count_zeros|swap_bytes|rotate_left|rotate_right|min|max|is_power_of_two|abs_diff)$',
+    r'^digest::(Digest::(new|update|finalize|digest|output_size|chain_update)|core_api::BlockSizeUser::block_size|FixedOutput::finalize_fixed|Update::update)$',
+    r'^core::(cmp::Ord::cmp|cmp::PartialOrd::partial_cmp)$',
+)]
+
+
 def _canon(path):
     import re
     p = strip_generics(path)
@@ -240,12 +260,14 @@ def classify(a, t, c):
     """'safe' | 'panicky' | 'unknown' for an external call"""
     p = _canon(c['path'])
     name = c['name']
-    if p == 'core::convert::Into::into':
+    if p in ('core::convert::Into::into', 'core::convert::From::from'):
         dst = t['dest_ty']
         if dst.startswith('&generic_array::GenericArray<') or dst.startswith('&mut generic_array::GenericArray<'):
             return 'panicky'
         return 'safe'
     if p in SAFE and SAFE[p] is not None:
+        return 'safe'
+    if any(rx.match(p) for rx in SAFE_FAMILIES):
         return 'safe'
     if name in PANICKY_NAMES or p.startswith('core::panicking::'):
         return 'panicky'
